@@ -24,6 +24,42 @@ pub struct WRec {
 pub struct Case {
     pub recs: Vec<WRec>,
     pub wrap: usize,
+    /// the io::Write the records are written to: (0, _) = Vec, (1, n) = accepts at most n bytes per write(),
+    /// (2, n) = a write() never crosses a block boundary of n bytes
+    #[serde(default)]
+    pub sink: (u8, u16),
+}
+
+/// An `io::Write` that may accept only part of the buffer (as pipes, sockets and size-limited writers do).
+pub struct Sink {
+    pub data: Vec<u8>,
+    kind: u8,
+    n: usize,
+    pub short_writes: usize,
+}
+
+impl Sink {
+    pub fn new(kind: (u8, u16)) -> Sink {
+        Sink { data: Vec::new(), kind: kind.0 % 3, n: (kind.1 as usize).max(1), short_writes: 0 }
+    }
+}
+
+impl std::io::Write for Sink {
+    fn write(&mut self, buf: &[u8]) -> std::io::Result<usize> {
+        let k = match self.kind {
+            0 => buf.len(),
+            1 => buf.len().min(self.n),
+            _ => buf.len().min(self.n - self.data.len() % self.n),
+        };
+        if k < buf.len() {
+            self.short_writes += 1;
+        }
+        self.data.extend_from_slice(&buf[..k]);
+        Ok(k)
+    }
+    fn flush(&mut self) -> std::io::Result<()> {
+        Ok(())
+    }
 }
 
 pub const N_ENTRIES: u8 = 11;
@@ -70,7 +106,7 @@ pub fn chunks_of<'a>(seq: &'a [u8], cuts: &[(u16, bool)]) -> Vec<&'a [u8]> {
     out
 }
 
-fn write_one(out: &mut Vec<u8>, r: &WRec, wrap: usize) -> CheckResult {
+fn write_one(out: &mut Sink, r: &WRec, wrap: usize) -> CheckResult {
     let head = full_head(r);
     let chunks = chunks_of(&r.seq, &r.cuts);
     let io = |res: std::io::Result<()>| -> CheckResult {
@@ -126,14 +162,21 @@ fn write_one(out: &mut Vec<u8>, r: &WRec, wrap: usize) -> CheckResult {
 }
 
 pub fn check_case(c: &Case, ctx: &mut Ctx) -> CheckResult {
-    let mut out = Vec::new();
+    let mut sink = Sink::new(c.sink);
     let mut spans = Vec::new();
     for r in &c.recs {
-        let s = out.len();
-        write_one(&mut out, r, c.wrap)?;
-        spans.push((s, out.len()));
+        let s = sink.data.len();
+        write_one(&mut sink, r, c.wrap)?;
+        spans.push((s, sink.data.len()));
         ctx.class(&format!("entry: {}", ENTRY_NAMES[(r.entry % N_ENTRIES) as usize]));
     }
+    if sink.short_writes > 0 {
+        ctx.class("writer accepted only part of a buffer (short writes)");
+    }
+    if c.recs.iter().any(|r| r.seq.len() > 8192) {
+        ctx.class("sequence longer than 8 KiB");
+    }
+    let out = sink.data;
     // 1. round trip through the parser
     let mut rdr = fasta::Reader::new(&out[..]);
     let mut parsed: Vec<(Vec<u8>, Vec<u8>, Vec<u8>, Option<Vec<u8>>)> = Vec::new();
@@ -273,6 +316,7 @@ pub fn wrec(wrap_hint: usize) -> BoxedStrategy<WRec> {
         3 => (0usize..6, -1i32..=1).prop_map(move |(k, d)| ((k * wrap_hint) as i32 + d).max(0) as usize),
         1 => 40usize..200,
     ];
+    let seq_len = prop_oneof![60 => seq_len, 1 => 200usize..3000, 1 => 8000usize..20000];
     let seq = seq_len.prop_flat_map(|n| vec(prop::sample::select(&b"ACGTN acgt*-;@+\x80"[..]), n)).prop_map(B);
     (head_part(false), prop::option::of(head_part(true)), seq, vec((any::<u16>(), prop::bool::weighted(0.2)), 0..5), 0u8..N_ENTRIES, 1u8..30)
         .prop_map(|(mut id, mut desc, seq, cuts, entry, src_width)| {
@@ -297,7 +341,13 @@ pub fn wrec(wrap_hint: usize) -> BoxedStrategy<WRec> {
 impl Prop for FastaWrite {
     type Case = Case;
     fn strategy(&self, _tier: Tier) -> BoxedStrategy<Case> {
-        boxed((1usize..=70).prop_flat_map(|wrap| (vec(wrec(wrap), 1..6), Just(wrap))).prop_map(|(recs, wrap)| Case { recs, wrap }))
+        let sink = prop_oneof![3 => Just((0u8, 0u16)), 2 => (Just(1u8), prop_oneof![1u16..8, 8u16..200]), 1 => (Just(2u8), prop_oneof![1u16..8, 8u16..200, Just(4096u16)])];
+        boxed(
+            (prop_oneof![6 => 1usize..=70, 1 => 70usize..400])
+                .prop_flat_map(|wrap| (vec(wrec(wrap), 1..6), Just(wrap)))
+                .prop_flat_map(move |(recs, wrap)| (Just(recs), Just(wrap), sink.clone()))
+                .prop_map(|(recs, wrap, sink)| Case { recs, wrap, sink }),
+        )
     }
     fn check(&self, c: &Case, ctx: &mut Ctx) -> CheckResult {
         if c.recs.iter().any(|r| r.seq.len() > c.wrap || r.cuts.len() >= 1) {
@@ -307,7 +357,7 @@ impl Prop for FastaWrite {
     }
 }
 
-pub const RULE: &str = "cases = 1..5 records (id without space/LF, optional description, header not ending in CR, may contain '>', CR inside, non-UTF-8; sequence without LF/CR/'>' of length 0..200 with lengths k*wrap+{-1,0,1} over-weighted; chunking with cut points and inserted empty chunks; one of 11 writer entry points incl. RefRecord methods on a parsed multi-line rendering) x wrap 1..=70, written back to back. Oracle: parse(output) = the list of (header, sequence) and id/desc parts; on the raw bytes: wrapped lines <= wrap and all but the last == wrap, unwrapped output has one sequence line; write_seq = write_seq_iter(chunks); for non-empty sequences write_wrap_seq = write_wrap_seq_iter(chunks) byte for byte. Exhaustive sub-check: every sequence length 0..=8 x wrap 1..=9 x every set of cut points x {no, leading, trailing} empty chunk. Non-trivial = a sequence longer than wrap or >= 2 chunks. Distinct = hash(case).";
+pub const RULE: &str = "cases = 1..5 records (id without space/LF, optional description, header not ending in CR, may contain '>', CR inside, non-UTF-8; sequence without LF/CR/'>' of length 0..200 with lengths k*wrap+{-1,0,1} over-weighted; chunking with cut points and inserted empty chunks; one of 11 writer entry points incl. RefRecord methods on a parsed multi-line rendering) x wrap 1..=70 (rarely up to 400), written back to back into a Vec or into a writer that accepts only part of each buffer (at most n bytes per write(), or never across an n-byte block boundary); sequences up to 20 kB with low weight. Oracle: parse(output) = the list of (header, sequence) and id/desc parts; on the raw bytes: wrapped lines <= wrap and all but the last == wrap, unwrapped output has one sequence line; write_seq = write_seq_iter(chunks); for non-empty sequences write_wrap_seq = write_wrap_seq_iter(chunks) byte for byte. Exhaustive sub-check: every sequence length 0..=8 x wrap 1..=9 x every set of cut points x {no, leading, trailing} empty chunk. Non-trivial = a sequence longer than wrap or >= 2 chunks. Distinct = hash(case).";
 
 pub fn run(tier: Tier) -> i32 {
     let mut run = Run::new("C10", tier, "exploration");
@@ -341,9 +391,15 @@ pub fn run(tier: Tier) -> i32 {
                             ctx.nontrivial(&(len, wrap, cutset, empties), &serde_json::json!({"len": len, "wrap": wrap, "chunks": chunks.iter().map(|c| crate::util::esc(c)).collect::<Vec<_>>()}));
                         }
                         let (mut a, mut b) = (Vec::new(), Vec::new());
-                        fasta::write_wrap_seq(&mut a, &seq, wrap).unwrap();
-                        fasta::write_wrap_seq_iter(&mut b, chunks.iter().cloned(), wrap).unwrap();
-                        let mut ok = len == 0 || a == b;
+                        let written = crate::engine::guarded(|| {
+                            fasta::write_wrap_seq(&mut a, &seq, wrap).unwrap();
+                            fasta::write_wrap_seq_iter(&mut b, chunks.iter().cloned(), wrap).unwrap();
+                            Ok(())
+                        });
+                        if b.is_empty() {
+                            b.push(b'\n');
+                        }
+                        let mut ok = written.is_ok() && (len == 0 || a == b);
                         // widths on the iterator output
                         let body = &b[..b.len() - 1];
                         let lines: Vec<&[u8]> = body.split(|&x| x == b'\n').collect();
@@ -365,6 +421,7 @@ pub fn run(tier: Tier) -> i32 {
                             let case = Case {
                                 recs: vec![WRec { id: B::new(b"x"), desc: None, seq: B(seq.clone()), cuts: (1..len).filter(|p| cutset >> (p - 1) & 1 == 1).map(|p| ((((p as u32) << 16) / (len as u32 + 1) + 1) as u16, false)).collect(), entry: 6, src_width: 1 }],
                                 wrap,
+                                sink: (0, 0),
                             };
                             return Err((
                                 serde_json::to_value(&case).unwrap(),
